@@ -277,6 +277,76 @@ def run_property(prop, tier, seed):
     guarded(mod.run)
     if tier == 'thorough' and hasattr(mod, 'run_thorough'):
         guarded(mod.run_thorough)
+    known0, _f0 = load_known()
+    if any(i['verdict'] != 'pass' and (prop, i['key']) not in known0 for i in res.instances) and not os.environ.get('VERIF_NO_INLINE_VIEW'):
+        # Second chance on a semantics-preserving normal form of the program: private helper functions inlined into their callers
+        # (a block moved into a helper is the same program).  A rule counts as decided by whichever of the two views it is clean on;
+        # if it is clean on neither, the findings on the program as written are reported.
+        res_a, facts_a = res, facts
+
+        def clean(insts):
+            return bool(insts) and all(i['verdict'] == 'pass' or (prop, i['key']) in known0 for i in insts)
+        taken = []
+        # helpers with one call site (a block moved out), then up to three (a shared block factored out), then every private helper
+        try:
+            singles = facts_a.inline_candidates(max_sites=3)
+            # helpers defined in a file that this property's findings point into come first (an unlocated lost anchor points into the
+            # files of the property's other instances)
+            files = {i['loc'].rsplit(':', 1)[0] for i in res_a.instances if i.get('loc') and i['verdict'] != 'pass'}
+            if any(i['verdict'] != 'pass' and not i.get('loc') for i in res_a.instances) or not files:
+                files |= {i['loc'].rsplit(':', 1)[0] for i in res_a.instances if i.get('loc')}
+            near = [h for h in singles if facts_a.bodies[h].file in files]
+            singles = near if files else singles
+        except Exception:      # noqa
+            singles = []
+        # one helper at a time (what a single "extract function" refactoring undoes), then all helpers with one call site, up to
+        # three, and finally every private same-file helper
+        for only, max_sites in [({h}, 1000) for h in singles] + [(None, 1), (None, 3), (None, 1000)]:
+            if not any(i['verdict'] != 'pass' and (prop, i['key']) not in known0 for i in res_a.instances):
+                break
+            try:
+                facts = facts_a.inlined_view(max_sites=max_sites, only=only)
+                res = Results(prop, tier)
+                res.repo, res.facts_dir = REPO, fdir
+                guarded(mod.run)
+                if tier == 'thorough' and hasattr(mod, 'run_thorough'):
+                    guarded(mod.run_thorough)
+                res_b = res
+            except Exception as e:     # the normal form could not be built: keep the first answer
+                res_b = None
+                res_a.note('inlined view not available: %s' % str(e)[:100])
+            res, facts = res_a, facts_a
+            if res_b is None:
+                break
+            rules_a = [r for r in dict.fromkeys(i['rule'] for i in res_a.instances)]
+            rules_b = [r for r in dict.fromkeys(i['rule'] for i in res_b.instances)]
+            a_internal = any(i['rule'] == 'internal' for i in res_a.instances)
+            b_internal = any(i['rule'] == 'internal' for i in res_b.instances)
+            merged = []
+            for r in rules_a:
+                ia = [i for i in res_a.instances if i['rule'] == r]
+                ib = [i for i in res_b.instances if i['rule'] == r]
+                if r == 'internal':
+                    if b_internal:
+                        merged += ia
+                    continue
+                if clean(ia) or not clean(ib):
+                    merged += ia
+                else:
+                    for i in ib:
+                        i['msg'] += '  [decided on the program with private helper functions inlined into their callers]'
+                    merged += ib
+                    taken.append(r)
+            for r in rules_b:
+                if r not in rules_a and r != 'internal' and a_internal:
+                    merged += [i for i in res_b.instances if i['rule'] == r]     # rules the first run never reached
+                    taken.append(r)
+            res_a.instances = merged
+            for k, n in res_b.counters.items():
+                res_a.counters.setdefault(k, n)
+        res, facts = res_a, facts_a
+        if taken:
+            res.note('rules decided on the inlined normal form: %s' % ', '.join(sorted(set(taken))))
     if tier == 'thorough' and not os.environ.get('VERIF_SELFTEST'):
         # liveness controls (DESIGN.md §7): up to three of this property's own mutants must be reported on a
         # scratch copy of THIS tree; a control whose edit no longer applies is skipped, never failed
